@@ -100,9 +100,14 @@ func c14CheckOffer(list []*types.Transaction, st *state.StateDB, maxGas uint64) 
 // rules at the current head (feeMul/10 times the current fee, at least the minimal fee).
 func c14Tx(w *World, from *Actor, t types.TxType, to *common.Address, amount *big.Int, payload []byte, nonce uint32, epoch uint16, feeMul int64) *types.Transaction {
 	v := w.View()
+	return c14TxAt(v.AppState.State, v.AppState.ValidatorsCache.NetworkSize(), from, t, to, amount, payload, nonce, epoch, feeMul)
+}
+
+// c14TxAt is c14Tx against an explicit state view (the concurrent part passes a private
+// read-only view so that the harness never reads the canonical state while the pool does).
+func c14TxAt(st *state.StateDB, ns int, from *Actor, t types.TxType, to *common.Address, amount *big.Int, payload []byte, nonce uint32, epoch uint16, feeMul int64) *types.Transaction {
 	probe := &types.Transaction{AccountNonce: nonce, Epoch: epoch, Type: t, To: to, Amount: amount, Payload: payload, MaxFee: Dna(1)}
-	f := w.FeeFor(probe)
-	ns := v.AppState.ValidatorsCache.NetworkSize()
+	f := fee.CalculateFee(ns, st.FeePerGas(), probe)
 	minFee := fee.CalculateFee(ns, fee.GetFeePerGasForNetwork(ns), probe)
 	maxFee := new(big.Int).Div(new(big.Int).Mul(f, big.NewInt(feeMul)), big.NewInt(10))
 	if maxFee.Cmp(minFee) < 0 {
@@ -116,6 +121,11 @@ var c14PriorityTypes = []types.TxType{types.SubmitAnswersHashTx, types.SubmitSho
 
 // c14CeremonyTx builds a well-formed ceremony (priority) tx of the given type.
 func c14CeremonyTx(w *World, r *verifutil.Rng, from *Actor, t types.TxType, nonce uint32, epoch uint16) *types.Transaction {
+	v := w.View()
+	return c14CeremonyTxAt(v.AppState.State, v.AppState.ValidatorsCache.NetworkSize(), r, from, t, nonce, epoch)
+}
+
+func c14CeremonyTxAt(st *state.StateDB, ns int, r *verifutil.Rng, from *Actor, t types.TxType, nonce uint32, epoch uint16) *types.Transaction {
 	var payload []byte
 	switch t {
 	case types.SubmitAnswersHashTx:
@@ -123,7 +133,7 @@ func c14CeremonyTx(w *World, r *verifutil.Rng, from *Actor, t types.TxType, nonc
 	case types.SubmitShortAnswersTx:
 		payload = attachments.CreateShortAnswerAttachment(r.Bytes(r.Range(1, 6)), r.U64(), 0)
 	case types.SubmitLongAnswersTx:
-		seed := w.View().AppState.State.FlipWordsSeed()
+		seed := st.FlipWordsSeed()
 		var proof []byte
 		if signer, err := p256.NewVRFSigner(from.Key); err == nil {
 			_, proof = signer.Evaluate(seed[:])
@@ -132,7 +142,7 @@ func c14CeremonyTx(w *World, r *verifutil.Rng, from *Actor, t types.TxType, nonc
 	case types.EvidenceTx:
 		payload = r.Bytes(r.Range(1, 12))
 	}
-	return c14Tx(w, from, t, nil, nil, payload, nonce, epoch, 30)
+	return c14TxAt(st, ns, from, t, nil, nil, payload, nonce, epoch, 30)
 }
 
 func c14ErrClass(err error) string {
